@@ -9,6 +9,7 @@ import IpcModel.Ideal
 import IpcModel.Ledger.L
 import IpcModel.Timed
 import IpcModel.Async
+import IpcModel.Shm
 /-! Line-protocol driver: one request per line on stdin, one canonical answer per line on stdout.
 Imports model files only (no Mathlib/Std), so it links as a native executable. -/
 open Frag
@@ -513,6 +514,33 @@ def cmdStream (toks : List String) : String :=
         s!"s{c}={",".intercalate (st.buf.map toString)};{if st.ended then "end" else "open"}"
     " ".intercalate outs
 
+/-! ### shared memory (C05 / C18) -/
+def shmContent (seed len : Nat) : List Nat := (List.range len).map fun i => (seed * 31 + i * 7 + i / 256) % 256
+
+def parseShmOp : List String → Option Shm.Op
+  | ["fb", len, seed] => match len.toNat?, seed.toNat? with | some l, some sd => some (.fromBytes (shmContent sd l)) | _, _ => none
+  | ["fy", b, len] => match b.toNat?, len.toNat? with | some b, some l => some (.fromByte b l) | _, _ => none
+  | ["cl", i] => i.toNat?.map .clone
+  | ["rc", i] => i.toNat?.map .recvCopy
+  | ["dr", i] => i.toNat?.map .drop
+  | ["fl", i] => i.toNat?.map .flight
+  | ["rf"] => some .recvFlight
+  | _ => none
+
+def shmCallText : Shm.Call → String
+  | .create n => s!"create:{n}" | .mmap n => s!"mmap:{n}" | .dup => "dup" | .fstat => "fstat"
+  | .munmap n => s!"munmap:{n}" | .close => "close"
+
+def cmdShm (toks : List String) : String :=
+  match (splitBar toks).filter (· ≠ []) |>.mapM parseShmOp with
+  | none => "bad-request"
+  | some ops =>
+    let w := Shm.run ops
+    let hs := (w.hs.zipIdx).filterMap fun (x, i) => x.map fun (h, src) =>
+      let ok := match Shm.deref w.k h with | .bytes b => b == src && h.length == src.length | .fault => false
+      s!"{i}={h.length}:{if h.ptr.isSome then "map" else "null"}:{if ok then "ok" else "bad"}"
+    " ".intercalate (w.k.calls.map shmCallText) ++ " ; " ++ " ".intercalate hs
+
 /-- all fault patterns (ENOBUFS or not) of length k, as numbers 0 .. 2^k-1 -/
 def patOf (k m : Nat) : List Fault := (List.range k).map fun i => if (m >>> i) % 2 = 1 then .enobufs else .none
 
@@ -548,6 +576,7 @@ def answer (line : String) : String :=
   | "ledger" :: rest => cmdLedger rest
   | "timed" :: rest => cmdTimed rest
   | "stream" :: rest => cmdStream rest
+  | "shm" :: rest => cmdShm rest
   | "noop" :: _ => "ok"
   | "enc" :: rest => cmdEnc rest
   | "rt" :: rest => cmdRt rest
